@@ -4,11 +4,13 @@
  * frames, stack, child, env, last_value are outside the assigns clause. */
 #include "fib_resume.h"
 
+#ifndef FIB_NO_MSG
 /* message construction: assumed to return some string and to have no side effect on the fiber or the VM registers */
 const uint8_t *fib_formatc_c(const char *format, ...) __CPROVER_requires(1) __CPROVER_assigns() __CPROVER_ensures(1);
 const uint8_t *fib_cstring_c(const char *str) __CPROVER_requires(1) __CPROVER_assigns() __CPROVER_ensures(1);
+#endif
 
-JanetSignal check_can_resume_c(JanetFiber *fiber, Janet *out, int is_cancel)
+static JanetSignal check_can_resume_c(JanetFiber *fiber, Janet *out, int is_cancel)
 __CPROVER_requires(__CPROVER_is_fresh(fiber, sizeof(JanetFiber)))
 __CPROVER_requires(__CPROVER_is_fresh(out, sizeof(Janet)))
 __CPROVER_requires(WF_STATUS(fiber->flags))
